@@ -1000,10 +1000,13 @@ impl Resolver {
             }
             SK::Loop { condition, body } => {
                 let condition = self.expression(condition)?;
+                // The body doesn't have to be a block - it's a scope either way.
+                let ss = self.stack.len();
                 let body = match self.statement(body)? {
                     Some(body) => vec![body],
                     None => Vec::new(),
                 };
+                self.stack.truncate(ss);
                 Some(S::Loop { condition, body, span })
             }
             SK::Break => Some(S::Break(span)),
